@@ -39,6 +39,8 @@ func runC04(c *Check, tier string) {
 	ruleAddBeforeSpawn(c, "R04o", "output", "caching", "execution", "dag", "worker", "loading")
 	rulePendingEntryReleased(c, "R04p", "caching", "caching/backends", "output", "output/handlers", "execution", "loading", "worker")
 	shareRule(c, "R04k", "every path to a cache hit passes the branch on which the looked-up target result is non-nil (the hit path dereferences it on a worker goroutine; same obligation as R13a)", 1, "R13a", func(sub *Check) { ruleR13a(sub, analyseGate(sub, "R13a")) }, func(k string) bool { return strings.Contains(k, "result-found") })
+	// round 7: a traversal that enumerates paths never finishes on a deep diamond: for the user the build hangs
+	shareRule(c, "R04q", "every recursive or worklist traversal over graph adjacency on the build path visits a node once (same obligations as R19a): work bounded by nodes + edges, so analysis and selection return", 6, "R19a", func(sub *Check) { ruleTraversals(sub, "R19a", false) }, nil)
 }
 
 // ruleSemaphorePairing (shared with C18): every acquired slot of a counting semaphore — a successful
